@@ -410,10 +410,34 @@ func (m QueryFilter) Filter(in zapcore.Field) zapcore.Field {
 func (m QueryFilter) processQueryString(s string) string {
 	u, err := url.Parse(s)
 	if err != nil {
-		return s
+		// not a well-formed URL (for instance a request target with a
+		// bad percent-escape outside of its query); its query is still
+		// what follows the first '?', up to a '#', and must be filtered
+		before, after, found := strings.Cut(s, "?")
+		if !found {
+			return s
+		}
+		rawQuery, fragment, hasFragment := strings.Cut(after, "#")
+		q, _ := url.ParseQuery(rawQuery)
+		m.applyActions(q)
+		if encoded := q.Encode(); encoded != "" || rawQuery == "" {
+			before += "?" + encoded
+		}
+		if hasFragment {
+			before += "#" + fragment
+		}
+		return before
 	}
 
 	q := u.Query()
+	m.applyActions(q)
+
+	u.RawQuery = q.Encode()
+	return u.String()
+}
+
+// applyActions applies the configured actions to the query parameters.
+func (m QueryFilter) applyActions(q url.Values) {
 	for _, a := range m.Actions {
 		switch a.Type {
 		case replaceAction:
@@ -430,9 +454,6 @@ func (m QueryFilter) processQueryString(s string) string {
 			q.Del(a.Parameter)
 		}
 	}
-
-	u.RawQuery = q.Encode()
-	return u.String()
 }
 
 type cookieFilterAction struct {
